@@ -50,6 +50,9 @@ const (
 	PLLJunk
 	PClaimers
 	PReqPairPlaced
+	PTCPRunt
+	PExactSize
+	PNagging
 )
 
 var ProbeNames = map[int]string{
@@ -85,6 +88,9 @@ var ProbeNames = map[int]string{
 	PLLJunk:                "ill_formed_or_response_datagrams_sent_to_the_llmnr_server",
 	PClaimers:              "several_nodes_claim_one_unique_name_at_the_same_moment",
 	PReqPairPlaced:         "request_suspended_at_an_exact_statement_while_another_runs_to_completion",
+	PTCPRunt:               "tcp_frame_too_short_to_be_a_request_between_requests",
+	PExactSize:             "request_of_exactly_a_receive_buffer_size",
+	PNagging:               "responder_repeats_mismatching_responses_with_the_query_id",
 }
 
 var scenarioNames = [...]string{"nbns-server", "nbns-udp+tcp", "llmnr-server", "llmnr-client", "llmnr-client+server", "nbns-challenger", "nbns-lifecycle"}
